@@ -356,7 +356,39 @@ fn gen_structured(tier: Tier, emit: Emit) {
         (Pat::Map(vec![(MK::Id("x".into()), Some("q".into()), None), (MK::Id("y".into()), None, None)]), vec!["q", "y"]),
         (Pat::Wild(None, None), vec![]),
         (Pat::Wild(Some("n".into()), None), vec![]),
+        // a lone ellipsis is both the first and the last element
+        (Pat::Tuple(vec![e(Some("all"))], None), vec!["all"]),
+        (Pat::Tuple(vec![e(None)], None), vec![]),
+        (Pat::Tuple(vec![e(None), pid("k"), pid("v")], None), vec!["k", "v"]),
+        (Pat::Tuple(vec![e(Some("first")), pid("k"), pid("v")], None), vec!["first", "k", "v"]),
+        (Pat::Tuple(vec![pid("k"), pid("v"), e(Some("rest"))], None), vec!["k", "v", "rest"]),
+        (Pat::Tuple(vec![pid("k"), pid("v"), e(None)], None), vec!["k", "v"]),
+        (Pat::Tuple(vec![pid("a"), Pat::Tuple(vec![e(Some("inner"))], None)], None), vec!["a", "inner"]),
+        (Pat::Tuple(vec![pid("a"), Pat::Tuple(vec![pid("b"), e(Some("inner"))], None)], None), vec!["a", "b", "inner"]),
     ];
+    // the same patterns bound to the items an iterator adaptor hands to its callback: map entries
+    // and enumerate/zip pairs are temporary tuples living in registers, not heap tuples
+    let sources: Vec<X> = vec![
+        map(vec![("x", int(1)), ("y", int(2))]),
+        map(vec![("x", tuple(vec![int(2), int(3)]))]),
+        list(vec![tuple(vec![int(1), int(2)]), tuple(vec![int(3), int(4), int(5)]), tuple(vec![]), list(vec![int(6)])]),
+        tuple(vec![list(vec![int(1), list(vec![int(2), int(3)])]), s("ab")]),
+    ];
+    for (pat, names) in &pats {
+        for src in &sources {
+            for adaptor in ["each", "keep"] {
+                let mut bound: Vec<X> = names.iter().map(|n| id(n)).collect();
+                bound.push(int(0));
+                let body = if adaptor == "each" { vec![tuple(bound)] } else { vec![print(tuple(bound)), boolean(true)] };
+                let f = fdef(vec![ArgDef { pat: pat.clone(), default: None }], false, body);
+                for in_function in [false, true] {
+                    let stmts = vec![assign("src", src.clone()), assign("f", f.clone()), print(method(method(id("src"), adaptor, vec![id("f")]), "to_tuple", vec![])), print(id("src"))];
+                    let prog = if in_function { vec![assign("run", func(&[], stmts)), callf("run", vec![]), print(s("end"))] } else { stmts };
+                    emit(Case { family: "bind-structured", prog, shape: vec![] });
+                }
+            }
+        }
+    }
     let values: Vec<X> = vec![
         tuple(vec![]),
         tuple(vec![int(1)]),
